@@ -1,11 +1,12 @@
 #!/bin/bash
 # usage: tools/mut.sh <patch.diff | -e 'sed-expr' file> -- <gcv args...>
-# Applies a change to a scratch copy of /repo's working tree (outside /repo and /verif),
-# runs gcv against it (GCV_REPO), removes the copy.
+# Applies a change to a scratch copy of /repo's working tree (or of the snapshot named by
+# MUT_SRC), outside /repo and /verif, runs gcv against it (GCV_REPO), removes the copy.
+# GCV_NOEVIDENCE=1: scratch runs never touch /verif/evidence.
 set -u
 SCR=$(mktemp -d /tmp/gcvmut.XXXXXX)
 trap 'rm -rf "$SCR"' EXIT
-rsync -a --exclude .git /repo/ "$SCR/"
+rsync -a --exclude .git "${MUT_SRC:-/repo}/" "$SCR/"
 if [ "$1" = "-e" ]; then
   sed -i "$2" "$SCR/$3" || exit 3
   shift 3
